@@ -130,6 +130,8 @@ pub fn run_c14(ctx: &Ctx) -> i32 {
     let limits: [u64; 9] = [0, 10, 30, 100, 300, 1000, 5000, 10_000, 1_000_000];
     let nseq = ctx.n(400, 1200);
     let nbatch = ctx.n(300, 1200);
+    let nmixed = ctx.n(600, 2400);
+    let nreset = if cfg!(miri) { 1 } else { 8 };
     let next = AtomicU64::new(0);
     let deadline = if ctx.budget_s > 0 { Some(Instant::now() + Duration::from_secs(ctx.budget_s)) } else { None };
     let miri = cfg!(miri);
@@ -184,7 +186,7 @@ pub fn run_c14(ctx: &Ctx) -> i32 {
                 let mut evals = 0u64;
                 loop {
                     let c = next.fetch_add(1, Ordering::Relaxed);
-                    let total = nseq + nbatch;
+                    let total = nseq + nbatch + nmixed + nreset;
                     let over = match deadline {
                         Some(d) => Instant::now() > d && c >= total,
                         None => c >= total,
@@ -203,11 +205,22 @@ pub fn run_c14(ctx: &Ctx) -> i32 {
                     let mut rng = SmallRng::seed_from_u64(ctx.case_seed("evict", c));
                     let l = limits[rng.gen_range(0..limits.len())];
                     evals += 1;
-                    let seq = (c % (nseq + nbatch)) < nseq;
+                    let cc = c % (nseq + nbatch + nmixed + nreset);
+                    let seq = cc < nseq;
+                    let mixed = cc >= nseq + nbatch && cc < nseq + nbatch + nmixed;
+                    let reset = cc >= nseq + nbatch + nmixed;
                     // concurrent batches supervise themselves
                     wcase[w].store(if seq { c } else { u64::MAX }, Ordering::Relaxed);
                     beat[w].fetch_add(1, Ordering::Relaxed);
-                    let r = if seq { seq_run(ctx, c, l, &mut rng, &mut local) } else { batch_run(ctx, c, l, &mut rng, &mut local) };
+                    let r = if seq {
+                        seq_run(ctx, c, l, &mut rng, &mut local)
+                    } else if mixed {
+                        mixed_run(ctx, c, &mut rng, &mut local)
+                    } else if reset {
+                        reset_run(ctx, c, &mut local)
+                    } else {
+                        batch_run(ctx, c, l, &mut rng, &mut local)
+                    };
                     match r {
                         Ok((evictions, hist)) => {
                             if evictions > 0 {
@@ -448,6 +461,299 @@ fn batch_run(ctx: &Ctx, case: u64, l: u64, rng: &mut SmallRng, local: &mut BTree
     }
     *local.entry("batch:evictions".into()).or_insert(0) += evictions;
     Ok((evictions, nthreads as u64 * 10 + mode as u64))
+}
+
+/// Concurrency first, the bound afterwards: a concurrent phase over keys that are live, expired-but-not-yet-
+/// collected or absent (gets, deletes, stores, counter updates; one client parked at a hook point, jitter, or a
+/// free-running volume phase), then - with nothing in progress - one connection stores small records until the
+/// store is saturated. After each of these sequential stores the content must be within L + that record: a
+/// release counted twice or an increment lost in the concurrent phase shows here as a surplus that never goes away.
+/// Volume phase for windows of a few instructions inside the accounting (an increment landing between the load
+/// and the store of a non-atomic decrement, say): they are only met by sheer rate, so the threads call the
+/// MemcStore API directly (no wire encoding, no gate binding) as fast as they can. Deleters remove a prefilled
+/// base of records while setters store fresh keys; nothing is overwritten, so the accounting of this workload
+/// is exact and the limit - sized to hold exactly the base plus all sets - is not reached before the
+/// sequential phase tops the store up. Then 20 more sequential stores must each leave at most L + one record.
+fn volume_run(_ctx: &Ctx, case: u64, rng: &mut SmallRng, local: &mut BTreeMap<String, u64>) -> Result<(u64, u64), RunErr> {
+    use memcrs::cache::cache::{CacheMetaData, Record};
+    let vlen = 76usize;
+    let rec = || Record::new(Bytes::from(vec![b'x'; vlen]), 0, 0, 0);
+    let rec_size = rec().len() as u64;
+    let deleters = rng.gen_range(1..=2usize);
+    let setters = rng.gen_range(2..=4usize);
+    let per_deleter = rng.gen_range(10_000..30_000usize);
+    let per_setter = rng.gen_range(5_000..15_000usize);
+    let l = (deleters * per_deleter + setters * per_setter) as u64 * rec_size;
+    let stack = Stack::new(StoreKind::Random(l), 100);
+    for d in 0..deleters {
+        for i in 0..per_deleter {
+            let _ = stack.memc.set(Bytes::from(format!("d{}-{}", d, i)), rec());
+        }
+    }
+    let barrier = Arc::new(Barrier::new(deleters + setters));
+    let mut hs = vec![];
+    for d in 0..deleters {
+        let (memc, barrier) = (stack.memc.clone(), barrier.clone());
+        hs.push(std::thread::spawn(move || {
+            barrier.wait();
+            for i in 0..per_deleter {
+                let _ = memc.delete(Bytes::from(format!("d{}-{}", d, i)), CacheMetaData::new(0, 0, 0));
+            }
+        }));
+    }
+    for t in 0..setters {
+        let (memc, barrier) = (stack.memc.clone(), barrier.clone());
+        hs.push(std::thread::spawn(move || {
+            barrier.wait();
+            for i in 0..per_setter {
+                let _ = memc.set(Bytes::from(format!("s{}-{}", t, i)), Record::new(Bytes::from(vec![b'x'; 76]), 0, 0, 0));
+            }
+        }));
+    }
+    for h in hs {
+        let _ = h.join();
+    }
+    let (n0, b0) = stack.content_size();
+    let accounted0 = stack.policy.as_ref().map(|p| p.verif_memory_usage()).unwrap_or(0);
+    *local.entry("volume:runs".into()).or_insert(0) += 1;
+    *local.entry("volume:concurrent_deletes".into()).or_insert(0) += (deleters * per_deleter) as u64;
+    *local.entry("volume:concurrent_sets".into()).or_insert(0) += (setters * per_setter) as u64;
+    let missing = l.saturating_sub(b0) / rec_size;
+    for i in 0..missing {
+        let _ = stack.memc.set(Bytes::from(format!("f{}", i)), rec());
+    }
+    let mut evictions = 0u64;
+    let mut prev = stack.content_size().0;
+    for i in 0..20 {
+        let _ = stack.memc.set(Bytes::from(format!("g{}", i)), rec());
+        let (n, bytes) = stack.content_size();
+        if n <= prev {
+            evictions += 1;
+        }
+        prev = n;
+        *local.entry("volume:size_comparisons".into()).or_insert(0) += 1;
+        if bytes > l + rec_size {
+            return Err((
+                Viol::new(
+                    &["C14"],
+                    "over-limit-after-concurrency",
+                    format!(
+                        "{} deleters x {} deletes racing {} setters x {} stores of fresh keys (limit {} = room for all of them), then the store topped up sequentially: after {} more sequential store(s) {} bytes stored > limit + the record just written ({}): {} records too many; right after the concurrent phase {} records / {} bytes stored, {} accounted",
+                        deleters, per_deleter, setters, per_setter, l, i + 1, bytes, rec_size, (bytes - l - rec_size) / rec_size, n0, b0, accounted0
+                    ),
+                ),
+                json!({"engine":"evict-volume","case":case,"limit":l,"deleters":deleters,"setters":setters,"replay_cmd":format!("/verif/check C14 replay --case {}", case)}),
+            ));
+        }
+    }
+    Ok((evictions, 3000 + (deleters * 10 + setters) as u64))
+}
+
+fn mixed_run(ctx: &Ctx, case: u64, rng: &mut SmallRng, local: &mut BTreeMap<String, u64>) -> Result<(u64, u64), RunErr> {
+    if !cfg!(miri) && rng.gen_ratio(1, 12) {
+        return volume_run(ctx, case, rng, local);
+    }
+    // the limit is chosen so that the concurrent phase itself cannot reach it (what it accounts stays below L):
+    // the surplus looked for is then not the one of the known empty-store reset (reset_run), and every
+    // eviction happens in the sequential phase
+    let volume = false;
+    let l = [3000u64, 5000][rng.gen_range(0..2)];
+    let stack = Stack::new(StoreKind::Random(l), 100);
+    let mut conn = Conn::new(stack.memc.clone(), 1 << 20);
+    let pre = rng.gen_range(2..8usize);
+    for i in 0..pre {
+        let ttl = if rng.gen_bool(0.6) { 2 } else { 0 };
+        let _ = one(&mut conn, W::Set { k: 100 + i, len: rng.gen_range(60..200), ttl, cas: 0 }.frame(0).unwrap());
+    }
+    stack.timer.advance(3);
+    let nthreads = if cfg!(miri) { 2 } else if volume { 6 } else { rng.gen_range(2..=4) };
+    let per = if volume { rng.gen_range(100..300) } else { 1 };
+    let pick = |rng: &mut SmallRng| -> W {
+        let k = 100 + rng.gen_range(0..pre + 1);
+        match rng.gen_range(0..10) {
+            0..=3 => W::Get { k },
+            4 | 5 => W::Delete { k, cas: 0 },
+            6 => W::Set { k, len: rng.gen_range(60..160), ttl: if rng.gen_bool(0.3) { 1 } else { 0 }, cas: 0 },
+            7 => W::Add { k, len: rng.gen_range(60..160) },
+            8 => W::Incr { k: 90 },
+            _ => W::Append { k, len: 30 },
+        }
+    };
+    let progs: Vec<Vec<W>> = (0..nthreads).map(|_| (0..per).map(|_| pick(rng)).collect()).collect();
+    let points: [&'static str; 6] = ["cache.get.read", "store.expire.decided", "policy.accounted", "policy.evict.pick", "policy.evict.done", "policy.set.before_store"];
+    let mode = if volume { 3 } else { rng.gen_range(0..3) };
+    let (parks, jitter) = match mode {
+        0 | 3 => (vec![], None),
+        1 => (vec![], Some((500u32, 100u64))),
+        _ => {
+            let c = rng.gen_range(0..nthreads);
+            (vec![Park { client: c, point: points[rng.gen_range(0..points.len())], nth: 0, wait_for: (0..nthreads).filter(|x| *x != c).collect() }], None)
+        }
+    };
+    let plan_desc = format!("{:?} jitter={:?} volume={}", parks, jitter, volume);
+    let ctl = Ctl::new(nthreads, parks, jitter, ctx.case_seed("evict-m", case));
+    let barrier = Arc::new(Barrier::new(nthreads));
+    let done = Arc::new(AtomicU64::new(0));
+    let tids: Arc<Mutex<Vec<i32>>> = Arc::new(Mutex::new(vec![]));
+    let mut handles = vec![];
+    for (ci, prog) in progs.iter().enumerate() {
+        let (ctl, barrier, done, tids) = (ctl.clone(), barrier.clone(), done.clone(), tids.clone());
+        let memc = stack.memc.clone();
+        let prog = prog.clone();
+        let timer = stack.timer.clone();
+        handles.push(std::thread::spawn(move || {
+            tids.lock().unwrap().push(gate::gettid());
+            if !volume {
+                gate::bind(Some((ctl.clone(), ci)));
+            }
+            let mut conn = Conn::new(memc, 1 << 20);
+            barrier.wait();
+            for (i, w) in prog.iter().enumerate() {
+                let _ = one(&mut conn, w.frame(i as u32).unwrap());
+                if !volume {
+                    ctl.op_done(ci);
+                } else if i % 64 == 0 {
+                    ctl.tick.fetch_add(1, Ordering::SeqCst);
+                }
+                if ci == 0 && i % 97 == 96 {
+                    timer.advance(1);
+                }
+            }
+            ctl.finished(ci);
+            gate::bind(None);
+            done.fetch_add(1, Ordering::SeqCst);
+        }));
+    }
+    let describe = |extra: String| json!({"engine":"evict-mixed","case":case,"limit":l,"prefill":pre,"programs":progs.iter().map(|p| format!("{:?}", p.iter().take(6).collect::<Vec<_>>())).collect::<Vec<_>>(),"schedule":plan_desc,"detail":extra,"replay_cmd":format!("/verif/check C14 replay --case {}", case)});
+    let t0 = Instant::now();
+    let patience = if cfg!(miri) { 900 } else { 10 };
+    loop {
+        if done.load(Ordering::SeqCst) as usize == nthreads {
+            break;
+        }
+        if t0.elapsed() > Duration::from_secs(patience) {
+            let t = tids.lock().unwrap().clone();
+            let d2 = done.clone();
+            let tick = ctl.clone();
+            match gate::classify_stall(&t, &move || d2.load(Ordering::SeqCst) + tick.tick.load(Ordering::SeqCst), 20) {
+                Stall::Deadlock(m) => return Err((Viol::new(&["C14", "C16"], "deadlock", format!("concurrent commands under eviction did not return: {}", m)), describe(String::new()))),
+                Stall::Livelock(m) => return Err((Viol::new(&["C14", "C16"], "livelock", format!("eviction does not terminate: {}", m)), describe(String::new()))),
+                Stall::Slow => {
+                    if t0.elapsed() > Duration::from_secs(patience + 120) {
+                        *local.entry("mixed:inconclusive_slow".into()).or_insert(0) += 1;
+                        return Ok((0, 0));
+                    }
+                }
+            }
+        }
+        std::thread::sleep(Duration::from_micros(if cfg!(miri) { 2000 } else { 100 }));
+    }
+    for h in handles {
+        let _ = h.join();
+    }
+    *local.entry("mixed:windows_hit".into()).or_insert(0) += ctl.windows_hit.load(Ordering::SeqCst);
+    *local.entry(format!("mixed:mode{}", mode)).or_insert(0) += 1;
+    let (resets_in_phase, evictions_in_phase) = {
+        let c = ctl.counts.lock().unwrap();
+        (c.get("policy.evict.store_empty").copied().unwrap_or(0), c.get("policy.evict.done").copied().unwrap_or(0))
+    };
+    *local.entry("mixed:evictions_during_concurrent_phase".into()).or_insert(0) += evictions_in_phase;
+    *local.entry("mixed:empty_store_resets_during_concurrent_phase".into()).or_insert(0) += resets_in_phase;
+    // nothing is in progress any more: saturate with small records
+    let rec = 4usize;
+    let n_fill = if cfg!(miri) { 30 } else { (l as usize / 28) + 60 };
+    let every = if l > 10_000 { 97 } else { 1 };
+    let mut evictions = 0u64;
+    let after_conc = {
+        let (n, b) = stack.content_size();
+        (n, b, stack.policy.as_ref().map(|p| p.verif_memory_usage()).unwrap_or(0))
+    };
+    let mut prev_n = after_conc.0;
+    for j in 0..n_fill {
+        let k = 1000 + j;
+        let ok = one(&mut conn, W::Set { k, len: rec, ttl: 0, cas: 0 }.frame(j as u32).unwrap()).map(|r| r.status == st::OK).unwrap_or(false);
+        if j % every != 0 && j + 1 != n_fill {
+            continue;
+        }
+        let (n, bytes) = stack.content_size();
+        if n <= prev_n {
+            evictions += 1;
+        }
+        prev_n = n;
+        let last = stored_len(&stack, &keyname(k)).unwrap_or(0);
+        *local.entry("mixed:size_comparisons".into()).or_insert(0) += 1;
+        if ok && bytes > l + last.max(24 + rec as u64) {
+            return Err((
+                Viol::new(
+                    &["C14"],
+                    if resets_in_phase > 0 { "over-limit:inflight-accounting-wiped-by-empty-store-reset" } else { "over-limit-after-concurrency" },
+                    format!("after a concurrent phase and {} sequential stores of {}-byte values with nothing in progress: {} bytes stored > limit {} + the record just written ({})", j + 1, rec, bytes, l, last),
+                ),
+                describe(format!("records {} bytes {} accounted usage {} (right after the concurrent phase: {} bytes stored, {} accounted)", n, bytes, stack.policy.as_ref().map(|p| p.verif_memory_usage()).unwrap_or(0), after_conc.1, after_conc.2)),
+            ));
+        }
+    }
+    Ok((evictions, 1000 + nthreads as u64 * 10 + mode as u64))
+}
+
+/// The one history in which the bound is known not to hold (DESIGN.md section 6, D10): store A has added its
+/// record to the usage counter and has not stored it yet; store B's eviction round empties the store, still
+/// sees usage above the limit (A's bytes) and resets the counter by its own stale view, which wipes A's bytes;
+/// A then stores its record, which is never accounted. From then on the store settles at L + A's record.
+fn reset_run(ctx: &Ctx, case: u64, local: &mut BTreeMap<String, u64>) -> Result<(u64, u64), RunErr> {
+    let l = 100u64;
+    let stack = Stack::new(StoreKind::Random(l), 100);
+    let mut conn = Conn::new(stack.memc.clone(), 1 << 20);
+    let _ = one(&mut conn, W::Set { k: 100, len: 60, ttl: 0, cas: 0 }.frame(0).unwrap());
+    let progs = [W::Set { k: 1, len: 110, ttl: 0, cas: 0 }, W::Set { k: 2, len: 50, ttl: 0, cas: 0 }];
+    let parks = vec![Park { client: 0, point: "policy.accounted", nth: 0, wait_for: vec![1] }];
+    let ctl = Ctl::new(2, parks, None, ctx.case_seed("evict-r", case));
+    let mut handles = vec![];
+    let barrier = Arc::new(Barrier::new(2));
+    for (ci, w) in progs.iter().enumerate() {
+        let (ctl, memc, w, barrier) = (ctl.clone(), stack.memc.clone(), w.clone(), barrier.clone());
+        handles.push(std::thread::spawn(move || {
+            gate::bind(Some((ctl.clone(), ci)));
+            let mut conn = Conn::new(memc, 1 << 20);
+            barrier.wait();
+            if ci == 1 {
+                // B starts once A is parked behind its increment (or has given up waiting)
+                std::thread::sleep(Duration::from_millis(if cfg!(miri) { 200 } else { 20 }));
+            }
+            let _ = one(&mut conn, w.frame(ci as u32).unwrap());
+            ctl.op_done(ci);
+            ctl.finished(ci);
+            gate::bind(None);
+        }));
+    }
+    for h in handles {
+        let _ = h.join();
+    }
+    let resets = ctl.counts.lock().unwrap().get("policy.evict.store_empty").copied().unwrap_or(0);
+    *local.entry("reset:runs".into()).or_insert(0) += 1;
+    *local.entry("reset:empty_store_resets_with_a_store_in_flight".into()).or_insert(0) += resets;
+    let accounted = stack.policy.as_ref().map(|p| p.verif_memory_usage()).unwrap_or(0);
+    let (_, stored) = stack.content_size();
+    for j in 0..3 {
+        let k = 1000 + j;
+        let ok = one(&mut conn, W::Set { k, len: 4, ttl: 0, cas: 0 }.frame(j as u32).unwrap()).map(|r| r.status == st::OK).unwrap_or(false);
+        let (n, bytes) = stack.content_size();
+        let last = stored_len(&stack, &keyname(k)).unwrap_or(0);
+        if ok && bytes > l + last.max(28) {
+            return Err((
+                Viol::new(
+                    &["C14"],
+                    if resets > 0 { "over-limit:inflight-accounting-wiped-by-empty-store-reset" } else { "over-limit-after-concurrency" },
+                    format!(
+                        "limit {}: set A (134-byte record) parked after its usage increment; set B's eviction round emptied the store and reset the counter ({} reset); both stored; then with nothing in progress, after {} sequential store(s) of 4-byte values: {} bytes in {} records > limit + the record just written ({}); accounted usage {} vs {} bytes stored right after the two sets",
+                        l, resets, j + 1, bytes, n, last, accounted, stored
+                    ),
+                ),
+                json!({"engine":"evict-reset","case":case,"limit":l,"accounted_after_sets":accounted,"stored_after_sets":stored,"replay_cmd":format!("/verif/check C14 replay --case {}", case)}),
+            ));
+        }
+    }
+    Ok((1, 2000))
 }
 
 // ---------------------------------------------------------------------------
